@@ -18,6 +18,7 @@ import (
 	"verifharness/common"
 	"verifharness/kit"
 	"verifharness/refmodel"
+	"verifharness/simfs"
 )
 
 // StableCase interleaves stable-store operations with log operations on the
@@ -57,7 +58,7 @@ func genStable(t *rapid.T) StableCase {
 		case k < 25:
 			c.Ops = append(c.Ops, SOp{K: "setnil", Key: rapid.IntRange(2, len(stableKeys)-1).Draw(t, "key")})
 		case k < 35:
-			c.Ops = append(c.Ops, SOp{K: "setu64", Key: rapid.IntRange(0, 1).Draw(t, "key"), U64: rapid.SampledFrom([]uint64{0, 1, 1 << 32, ^uint64(0), 77}).Draw(t, "u")})
+			c.Ops = append(c.Ops, SOp{K: "setu64", Key: rapid.IntRange(0, 1).Draw(t, "key"), U64: genStableU64(t)})
 		case k < 48:
 			c.Ops = append(c.Ops, SOp{K: "get", Key: rapid.IntRange(2, len(stableKeys)-1).Draw(t, "key")})
 		case k < 55:
@@ -77,6 +78,118 @@ func genStable(t *rapid.T) StableCase {
 		}
 	}
 	return c
+}
+
+// genStableU64 covers the whole uint64 range with weight on the shapes an encoding mistake would
+// trip over: boundaries, single bits, all-ones prefixes, a single non-zero byte at each of the
+// eight byte positions, values whose byte-reversal is small, and uniform values of every bit length.
+func genStableU64(t *rapid.T) uint64 {
+	switch rapid.IntRange(0, 6).Draw(t, "ushape") {
+	case 0:
+		return rapid.SampledFrom([]uint64{0, 1, 77, 255, 256, 1 << 32, 1<<32 - 1, 1 << 56, 1 << 63, ^uint64(0), ^uint64(0) - 1}).Draw(t, "u")
+	case 1:
+		return uint64(1) << rapid.IntRange(0, 63).Draw(t, "bit")
+	case 2:
+		return uint64(1)<<rapid.IntRange(1, 63).Draw(t, "bit") - 1
+	case 3:
+		return uint64(rapid.IntRange(1, 255).Draw(t, "byte")) << (8 * rapid.IntRange(0, 7).Draw(t, "pos"))
+	case 4:
+		// two non-zero bytes, anywhere
+		a := uint64(rapid.IntRange(1, 255).Draw(t, "b1")) << (8 * rapid.IntRange(0, 7).Draw(t, "p1"))
+		b := uint64(rapid.IntRange(1, 255).Draw(t, "b2")) << (8 * rapid.IntRange(0, 7).Draw(t, "p2"))
+		return a | b
+	case 5:
+		bits := rapid.IntRange(1, 64).Draw(t, "bits")
+		v := rapid.Uint64().Draw(t, "u")
+		if bits < 64 {
+			v &= uint64(1)<<bits - 1
+			v |= uint64(1) << (bits - 1)
+		}
+		return v
+	default:
+		return rapid.Uint64().Draw(t, "u")
+	}
+}
+
+// U64Case: SetUint64/GetUint64 round trips over the whole value range on SimFS+SimMeta
+// (the encoding lives in wal.go, above the MetaStore), read back at once, after other keys
+// were written, and after a reopen.
+type U64Case struct {
+	Vals   []uint64 `json:"vals"`
+	Keys   []int    `json:"keys"` // index into u64Keys per value
+	Reopen []bool   `json:"reopen"`
+}
+
+var u64Keys = [][]byte{[]byte("CurrentTerm"), []byte("LastVoteTerm"), []byte("x"), {0}}
+
+func genU64Case(t *rapid.T) U64Case {
+	n := rapid.IntRange(1, 12).Draw(t, "n")
+	c := U64Case{}
+	for i := 0; i < n; i++ {
+		c.Vals = append(c.Vals, genStableU64(t))
+		c.Keys = append(c.Keys, rapid.IntRange(0, len(u64Keys)-1).Draw(t, "key"))
+		c.Reopen = append(c.Reopen, rapid.IntRange(0, 4).Draw(t, "reopen") == 0)
+	}
+	return c
+}
+
+func runU64(c U64Case) (res common.Result) {
+	cfg := kit.Cfg{SegSize: 4096, FS: simfs.New()}
+	w, err := cfg.Open()
+	if err != nil {
+		res.Fail = common.Failf("open-fresh", "%v", err)
+		return
+	}
+	defer func() { w.Close() }()
+	model := map[int]uint64{}
+	check := func(where string) *common.Failure {
+		for k := range u64Keys {
+			got, err := w.GetUint64(u64Keys[k])
+			if err != nil {
+				return common.Failf("stable-get-err", "%s: GetUint64(%q) = %v", where, u64Keys[k], err)
+			}
+			if got != model[k] {
+				return common.Failf("stable-u64", "%s: GetUint64(%q) = %d (%#x), latest SetUint64 was %d (%#x)", where, u64Keys[k], got, got, model[k], model[k])
+			}
+		}
+		return nil
+	}
+	for i, v := range c.Vals {
+		k := c.Keys[i]
+		if err := w.SetUint64(u64Keys[k], v); err != nil {
+			res.Fail = common.Failf("set-err", "step %d: SetUint64(%q,%d) = %v", i, u64Keys[k], v, err)
+			return
+		}
+		model[k] = v
+		if v >= 1<<56 {
+			res.Classes = append(res.Classes, "u64-top-byte-set")
+		}
+		if f := check(fmt.Sprintf("after step %d SetUint64(%q,%#x)", i, u64Keys[k], v)); f != nil {
+			res.Fail = f
+			return
+		}
+		if c.Reopen[i] {
+			if err := w.Close(); err != nil {
+				res.Fail = common.Failf("close-err", "step %d: %v", i, err)
+				return
+			}
+			if w, err = cfg.Open(); err != nil {
+				res.Fail = common.Failf("reopen-err", "step %d: %v", i, err)
+				return
+			}
+			res.Classes = append(res.Classes, "reopen")
+			if f := check(fmt.Sprintf("after the reopen following step %d", i)); f != nil {
+				res.Fail = f
+				return
+			}
+		}
+	}
+	res.NonTrivial = true
+	return
+}
+
+func TestC08U64(t *testing.T) {
+	common.Run(t, "C08", "C08U64", genU64Case, runU64)
 }
 
 func copyTree(src, dst string) error {
